@@ -7,10 +7,14 @@
      the input bytes (compared in Go and again here) of the layout's length. *)
 Definition is_ok (o : res error) : bool := match o with Val None => true | _ => false end.
 Definition is_panic {A} (o : res A) : bool := match o with Panic => true | _ => false end.
-Definition c09_prop (wf : bool -> txn -> bool) (fc : txn -> bool) (c : txn * res error * res error) : bool :=
-  let '(t, os, ou) := c in
-  fc t && negb (is_panic os) && negb (is_panic ou) &&
-  Bool.eqb (wf true t) (is_ok os) && Bool.eqb (wf false t) (is_ok ou).
+Definition c09_prop (wf : bool -> txn -> bool) (fc : txn -> bool) (c : txn * list (bool * res error)) : bool :=
+  let '(t, calls) := c in
+  let wt := wf true t in
+  let wu := wf false t in
+  fc t &&
+  (* every call of the history, whatever was verified before it *)
+  forallb (fun k : bool * res error =>
+    negb (is_panic (snd k)) && Bool.eqb (if fst k then wt else wu) (is_ok (snd k))) calls.
 Definition pf_txn := Eval vm_compute in failing (c09_prop well_formed_b (facts_consistent_b 300)) cases_txn.
 Print pf_txn.
 Definition pf_big := Eval vm_compute in
@@ -28,7 +32,7 @@ Definition vis_all (t : txn) (ux : list (Z * Z)) : bool :=
   forallb (fun p : sigfact * (Z * Z) => negb (sf_null (fst p)) && negb (is_err (sf_verr (fst p))) && (sf_addr (fst p) =? snd (snd p)))
           (combine (t_sigs t) ux).
 Definition txn_at (i : Z) : option txn :=
-  match nth_error cases_txn (Z.to_nat i) with Some (t, _, _) => Some t | None => None end.
+  match nth_error cases_txn (Z.to_nat i) with Some (t, _) => Some t | None => None end.
 Definition pf_vis := Eval vm_compute in
   failing (fun c : Z * list (Z * Z) * res error =>
     let '(i, ux, o) := c in
@@ -47,8 +51,8 @@ Definition pf_dec := Eval vm_compute in
 Print pf_dec.
 (* how many explored cases meet the premises / are accepted (non-vacuity) *)
 Definition n_accepted := Eval vm_compute in
-  [count_true (fun c : txn * res error * res error => let '(_, os, _) := c in is_ok os) cases_txn;
-   count_true (fun c : txn * res error * res error => let '(_, _, ou) := c in is_ok ou) cases_txn;
+  [count_true (fun c : txn * list (bool * res error) => existsb (fun k => fst k && is_ok (snd k)) (snd c)) cases_txn;
+   count_true (fun c : txn * list (bool * res error) => existsb (fun k => negb (fst k) && is_ok (snd k)) (snd c)) cases_txn;
    count_true (fun c : Z * bool * bool * bool * bool * Z * Z * Z * list Z * list Z =>
       let '(_, decoded, _, _, _, _, _, _, _, _) := c in decoded) cases_dec].
 Print n_accepted.
